@@ -7,6 +7,7 @@ import (
 	"net/http/httptest"
 	"net/url"
 	"reflect"
+	"sync"
 	"testing"
 
 	"github.com/gookit/rux"
@@ -175,7 +176,7 @@ func TestPropLRU(t *testing.T) { rapid.Check(t, propLRU) }
 type req struct{ method, path string }
 
 func runRouter(tb *model.Table, hist []req) string {
-	r := rux.New(tb.Opts.Rux()...)
+	r := tb.Opts.NewRouter()
 	model.Register(r, tb.Routes, func(d model.RouteDef) rux.HandlerFunc {
 		name := d.Name()
 		return func(c *rux.Context) { c.WriteString(name) }
@@ -242,6 +243,7 @@ func propRouter(t *rapid.T) {
 	o.Fallback = rapid.IntRange(0, 3).Draw(t, "fallback") == 0
 	o.Caching = true
 	o.CacheCap = rapid.IntRange(1, ev.Pick(4, 8)).Draw(t, "cap")
+	o.Via, o.Order = model.GenVia(t), model.GenOrder(t)
 	tc := model.TableCfg{MaxRoutes: 6, Gen: model.GenCfg{MaxSegs: 3}, Fallback: o.Fallback}
 	tb.Routes = model.GenRoutes(t, tc, o.Strict)
 	if len(tb.Routes) == 0 {
@@ -287,3 +289,68 @@ func TestRegress(t *testing.T) {
 		t.Errorf("D3: %s", msg)
 	}
 }
+
+// propRaceOps: the cache operations issued concurrently from several goroutines (the router does exactly that when
+// the first requests for one path arrive together). Oracle afterwards: the structure is still a bounded map - no
+// key twice in the list, list and index agree, not more entries than the capacity, every listed key is found -
+// and the race detector stays silent (this test is built with -race by the driver).
+func propRaceOps(t *rapid.T) {
+	ev.Case()
+	capacity := rapid.IntRange(1, 3).Draw(t, "cap")
+	nkeys := rapid.IntRange(1, 4).Draw(t, "nkeys")
+	ng := rapid.IntRange(2, 8).Draw(t, "goroutines")
+	rounds := rapid.IntRange(50, ev.Pick(300, 2000)).Draw(t, "rounds")
+	c := rux.NewCachedRoutes(capacity)
+	keys := make([]string, nkeys)
+	for i := range keys {
+		keys[i] = fmt.Sprintf("GET/k%d", i)
+	}
+	route := rux.NewNamedRoute("v", "/x", func(*rux.Context) {})
+	// every goroutine gets its own pre-drawn op list (no private randomness)
+	plans := make([][]int, ng)
+	for g := range plans {
+		plans[g] = rapid.SliceOfN(rapid.IntRange(0, 4*nkeys-1), 4, 12).Draw(t, "plan")
+	}
+	for round := 0; round < rounds; round++ {
+		var wg sync.WaitGroup
+		start := make(chan struct{})
+		for g := 0; g < ng; g++ {
+			wg.Add(1)
+			go func(plan []int) {
+				defer wg.Done()
+				<-start
+				for _, op := range plan {
+					k := keys[op%nkeys]
+					switch op / nkeys {
+					case 0, 1:
+						c.Set(k, route)
+					case 2:
+						c.Get(k)
+					default:
+						c.Delete(k)
+					}
+				}
+			}(plans[g])
+		}
+		close(start)
+		wg.Wait()
+		ev.Eval()
+		got := c.VerifKeys()
+		seen := map[string]bool{}
+		for _, k := range got {
+			if seen[k] {
+				t.Fatalf("round %d: key %q is twice in the cache list %v (capacity %d, %d goroutines, plans %v)", round, k, got, capacity, ng, plans)
+			}
+			seen[k] = true
+			if !c.Has(k) {
+				t.Fatalf("round %d: key %q is in the list %v but Has() does not find it (plans %v)", round, k, got, plans)
+			}
+		}
+		if n := c.Len(); n != len(got) || n != c.VerifMapLen() || n > capacity {
+			t.Fatalf("round %d: Len()=%d, list %v, index size %d, capacity %d (plans %v)", round, n, got, c.VerifMapLen(), capacity, plans)
+		}
+	}
+	ev.NonTrivial(fmt.Sprint(capacity, plans), func() string { return fmt.Sprintf("capacity %d, %d goroutines, plans %v, %d rounds", capacity, ng, plans, rounds) })
+}
+
+func TestRaceOps(t *testing.T) { rapid.Check(t, propRaceOps) }
